@@ -135,7 +135,7 @@ impl SparqlNumber {
                 // isize::MIN has no native opposite
                 None => (-BigInt::from(*inner)).into(),
             },
-            SparqlNumber::BigInt(inner) => inner.clone().into(),
+            SparqlNumber::BigInt(inner) => inner.abs().into(),
             SparqlNumber::Decimal(inner) => inner.abs().into(),
             SparqlNumber::Float(inner) => inner.abs().into(),
             SparqlNumber::Double(inner) => inner.abs().into(),
